@@ -1,55 +1,180 @@
 (** C18 — Queue, stack and soft queue preserve order for every block size and history.
-    STAGE 1 (pipeline): full statements as definitions, examples by computation.  The proofs of
-    the full statements are being added in C18/Proofs*.v and replace this file's definitions by
-    theorems. *)
-From Algo.C18 Require Import Model Spec.
+    Statements only; every proof is [exact]/[apply] of lemmas of C18/Proofs*.v.
+
+    Model (C18/Model.v): [q_run V zero eqb nodeSize ops] runs the history [ops] on the model of
+    list/queue.go (node heap, [frontIndex]/[rearIndex]/[listSize], [frontNode == nil] and the
+    stale [rearNode] explicit) created by [NewQueue(nodeSize, eqb)]; [s_run] likewise for
+    list/stack.go; [sq_run] for list/soft_queue.go.  Results are [Ok (final state, outputs)],
+    [Panic] (index out of range / nil dereference) or [Hang] (loop fuel exhausted).
+    [V] is any element type, [zero] its Go zero value, [eqb] any EqualFunc (no law is assumed).
+    Spec (C18/Spec.v): [lq_step]/[ls_step] are the FIFO/LIFO machines on a plain [list V];
+    [added ops] are the values put in by the history, [removed ops outs] the values handed out by
+    its successful Dequeue/Pop calls, both in call order. *)
+From Algo.C18 Require Import Model Spec Proofs ProofsStack ProofsSoft ProofsOrder.
+From Coq Require Import Permutation.
 Open Scope Z_scope.
 
-(** For every element type, zero value, EqualFunc, block size >= 1 and history: the queue never
-    panics or hangs and every output (Dequeue, Peek, Contains, Size, IsEmpty) equals the output of
-    the FIFO list machine. *)
-Definition C18_queue_full : Prop :=
+(** * Queue *)
+
+(** For every block size >= 1 and every history the queue never panics or hangs, and every
+    output of every operation (Dequeue, Peek, Contains, Size, IsEmpty) equals the output of the
+    FIFO list machine. *)
+Theorem C18_queue_refines_fifo :
   forall (V : Type) (zero : V) (eqb : V -> V -> bool) (nodeSize : Z) (ops : list (op V)),
     1 <= nodeSize ->
     exists q, q_run V zero eqb nodeSize ops = Ok (q, lq_outs V zero eqb ops).
+Proof.
+  intros V zero eqb ns ops H.
+  destruct (q_run_refines V zero eqb ns ops H) as (q & E & _). exists q; exact E.
+Qed.
 
-Definition C18_stack_full : Prop :=
+(** Order, on the history alone: the values dequeued so far are exactly the first values
+    enqueued, in the same order; the rest ([live]) is what every observer answers about:
+    Size, IsEmpty, Peek, and Contains — which is true only for a value [eqb]-equal to one that was
+    enqueued and not yet dequeued. *)
+Theorem C18_queue_order_and_observers :
+  forall (V : Type) (zero : V) (eqb : V -> V -> bool) (nodeSize : Z) (ops : list (op V)) q outs,
+    1 <= nodeSize ->
+    q_run V zero eqb nodeSize ops = Ok (q, outs) ->
+    let live := skipn (length (removed V ops outs)) (added V ops) in
+    removed V ops outs ++ live = added V ops /\
+    q_size V q = Z.of_nat (length live) /\
+    q_isEmpty V q = is_nil live /\
+    q_peek V zero q = Ok (hd_or_zero V zero live) /\
+    (forall v, q_contains V eqb q v = Ok (existsb (fun x => eqb x v) live)).
+Proof.
+  intros V zero eqb ns ops q outs Hns E live.
+  destruct (q_fifo V zero eqb ns ops q outs Hns E) as (l & H1 & H2 & HI).
+  fold live in H2. subst l.
+  destruct (q_observers V zero eqb q live HI) as (A & B & C & _ & D & _).
+  repeat split; assumption.
+Qed.
+
+(** * Stack *)
+
+Theorem C18_stack_refines_lifo :
   forall (V : Type) (zero : V) (eqb : V -> V -> bool) (nodeSize : Z) (ops : list (op V)),
     1 <= nodeSize ->
     exists s, s_run V zero eqb nodeSize ops = Ok (s, ls_outs V zero eqb ops).
+Proof.
+  intros V zero eqb ns ops H.
+  destruct (s_run_refines V zero eqb ns ops H) as (s & E & _). exists s; exact E.
+Qed.
 
-Definition C18_softqueue_full : Prop :=
+(** Reverse push order: after any history, pushing [vs] and popping [length vs] times hands
+    back [rev vs] (and never panics). *)
+Theorem C18_stack_pops_in_reverse_push_order :
+  forall (V : Type) (zero : V) (eqb : V -> V -> bool) (nodeSize : Z) (ops : list (op V)) (vs : list V),
+    1 <= nodeSize ->
+    exists s,
+      s_run V zero eqb nodeSize (ops ++ map OpAdd vs ++ repeat OpRemove (length vs))
+      = Ok (s, ls_outs V zero eqb ops ++ map (fun _ => OutNone) vs
+                                      ++ map (fun v => OutVal v true) (rev vs)).
+Proof.
+  intros V zero eqb ns ops vs H.
+  destruct (s_lifo V zero eqb ns ops vs H) as (s & E & _). exists s; exact E.
+Qed.
+
+(** The observers answer about the live sequence [ls_final ops] of the LIFO machine, and that
+    sequence together with the values popped so far is a rearrangement of the values pushed:
+    nothing is invented, duplicated, lost or reported after its removal. *)
+Theorem C18_stack_observers :
+  forall (V : Type) (zero : V) (eqb : V -> V -> bool) (nodeSize : Z) (ops : list (op V)) s outs,
+    1 <= nodeSize ->
+    s_run V zero eqb nodeSize ops = Ok (s, outs) ->
+    let live := ls_final V zero eqb ops in
+    Permutation (removed V ops outs ++ live) (added V ops) /\
+    s_size V s = Z.of_nat (length live) /\
+    s_isEmpty V s = is_nil live /\
+    s_peek V zero s = Ok (hd_or_zero V zero live) /\
+    (forall v, s_contains V eqb s v = Ok (existsb (fun x => eqb x v) live)).
+Proof.
+  intros V zero eqb ns ops s outs Hns E live.
+  destruct (s_run_refines V zero eqb ns ops Hns) as (s0 & E0 & HI).
+  rewrite E in E0. injection E0 as -> ->. fold live in HI.
+  destruct (s_observers V zero eqb s0 live HI) as (A & B & C & _ & D & _).
+  split; [apply (ls_perm V zero eqb ops []) | repeat split; assumption].
+Qed.
+
+(** * Soft queue *)
+
+(** Every output equals the output of the abstract machine "all values ever enqueued + number of
+    values dequeued" ([lsoft_step]): Enqueue returns the number of earlier enqueues, Dequeue/Peek
+    return the value at the cursor with the cursor, or (zero,-1) when empty, Contains the first
+    position of an [eqb]-equal value among all values ever enqueued, Values all of them. *)
+Theorem C18_softqueue_refines :
   forall (V : Type) (zero : V) (eqb : V -> V -> bool) (ops : list (sop V)),
-    exists q, sq_run V zero eqb ops = Ok (q, snd (lsoft_run V zero eqb (lsoft_new V) ops)).
+    exists q, sq_run V zero eqb ops = Ok (q, lsoft_outs V zero eqb ops).
+Proof.
+  intros V zero eqb ops.
+  destruct (sq_run_refines V zero eqb ops) as (q & E & _). exists q; exact E.
+Qed.
 
-(** Non-vacuity and the D18 witness on the model of the fixed code: block size 2,
-    Enqueue 1; Enqueue 2; Dequeue; Dequeue; Enqueue 3 (panicked before fix 713e226). *)
+(** Stable positions: the index returned by Enqueue is where Values() holds the value in every
+    later state. *)
+Theorem C18_softqueue_enqueue_index_is_stable :
+  forall (V : Type) (zero : V) (eqb : V -> V -> bool) (ops1 : list (sop V)) (v : V)
+         (ops2 : list (sop V)) q1 outs1 q2 outs2,
+    sq_run V zero eqb ops1 = Ok (q1, outs1) ->
+    sq_run_from V zero eqb (fst (sq_enqueue V q1 v)) ops2 = Ok (q2, outs2) ->
+    idx (sq_values V q2) (snd (sq_enqueue V q1 v)) = Ok v.
+Proof. intros V zero eqb. apply sq_enqueue_stable. Qed.
+
+(** Dequeue and Peek return the front value with its index: on every reachable state they give
+    the same answer [r]; it is (zero,-1) iff the queue is empty, and otherwise Values() holds
+    [fst r] at index [snd r], which is the number of values dequeued before. *)
+Theorem C18_softqueue_front_value_and_index :
+  forall (V : Type) (zero : V) (eqb : V -> V -> bool) (ops : list (sop V)) q outs,
+    sq_run V zero eqb ops = Ok (q, outs) ->
+    exists r,
+      sq_peek V zero q = Ok r /\
+      (exists q', sq_dequeue V zero q = Ok (q', r)) /\
+      ((sq_isEmpty V q = true /\ r = (zero, -1)) \/
+       (sq_isEmpty V q = false /\ 0 <= snd r /\ idx (sq_values V q) (snd r) = Ok (fst r) /\
+        snd r = Z.of_nat (ls_done V (fst (lsoft_run V zero eqb (lsoft_new V) ops))))).
+Proof. intros V zero eqb. apply sq_front_answer. Qed.
+
+(** * Non-vacuity *)
+
+(** The D18 witness on the model of the fixed code: block size 2,
+    Enqueue 1; Enqueue 2; Dequeue; Dequeue; Enqueue 3 (the real code panicked before fix 713e226). *)
 Example C18_example_queue :
   let ops := [OpAdd 1; OpAdd 2; OpRemove; OpRemove; OpAdd 3; OpContains 1; OpContains 3; OpRemove; OpRemove] in
   match q_run Z 0 Z.eqb 2 ops with
-  | Ok (_, outs) => outs = lq_outs Z 0 Z.eqb ops /\
-                    outs = [OutNone; OutNone; OutVal 1 true; OutVal 2 true; OutNone;
+  | Ok (_, outs) => outs = [OutNone; OutNone; OutVal 1 true; OutVal 2 true; OutNone;
                             OutBool false; OutBool true; OutVal 3 true; OutVal 0 false]
   | _ => False
   end.
-Proof. vm_compute. split; reflexivity. Qed.
+Proof. vm_compute. reflexivity. Qed.
 
 Example C18_example_stack :
   let ops := [OpAdd 1; OpAdd 2; OpAdd 3; OpRemove; OpContains 3; OpPeek; OpRemove; OpRemove; OpRemove; OpAdd 4; OpSize] in
   match s_run Z 0 Z.eqb 2 ops with
-  | Ok (_, outs) => outs = ls_outs Z 0 Z.eqb ops /\
-                    outs = [OutNone; OutNone; OutNone; OutVal 3 true; OutBool false; OutVal 2 true;
+  | Ok (_, outs) => outs = [OutNone; OutNone; OutNone; OutVal 3 true; OutBool false; OutVal 2 true;
                             OutVal 2 true; OutVal 1 true; OutVal 0 false; OutNone; OutInt 1]
   | _ => False
   end.
-Proof. vm_compute. split; reflexivity. Qed.
+Proof. vm_compute. reflexivity. Qed.
 
 Example C18_example_softqueue :
   let ops := [SEnqueue 5; SEnqueue 6; SDequeue; SContains 5; SPeek; SDequeue; SDequeue; SEnqueue 7; SValues; SSize] in
   match sq_run Z 0 Z.eqb ops with
-  | Ok (_, outs) => outs = snd (lsoft_run Z 0 Z.eqb (lsoft_new Z) ops) /\
-                    outs = [SOIdx 0; SOIdx 1; SOValIdx 5 0; SOIdx 0; SOValIdx 6 1; SOValIdx 6 1;
+  | Ok (_, outs) => outs = [SOIdx 0; SOIdx 1; SOValIdx 5 0; SOIdx 0; SOValIdx 6 1; SOValIdx 6 1;
                             SOValIdx 0 (-1); SOIdx 2; SOVals [5; 6; 7]; SOIdx 1]
   | _ => False
   end.
+Proof. vm_compute. reflexivity. Qed.
+
+(** The hypothesis [1 <= nodeSize] is necessary: with block size 0 the first Enqueue panics. *)
+Example C18_example_blocksize_zero_panics :
+  q_run Z 0 Z.eqb 0 [OpAdd 1] = Panic /\ s_run Z 0 Z.eqb 0 [OpAdd 1] = Panic.
 Proof. vm_compute. split; reflexivity. Qed.
+
+Print Assumptions C18_queue_refines_fifo.
+Print Assumptions C18_queue_order_and_observers.
+Print Assumptions C18_stack_refines_lifo.
+Print Assumptions C18_stack_pops_in_reverse_push_order.
+Print Assumptions C18_stack_observers.
+Print Assumptions C18_softqueue_refines.
+Print Assumptions C18_softqueue_enqueue_index_is_stable.
+Print Assumptions C18_softqueue_front_value_and_index.
